@@ -133,20 +133,30 @@ class Mk:
 _SPRAY_SIZES = list(range(1, 130)) + [160, 192, 256, 384, 512, 768, 1024, 2048, 4096, 16384]
 
 
-_SPRAY_SMALL = list(range(0, 40))
-
-
 def spray(sign):
     """Fill freed heap chunks (numpy's small-block cache and malloc's bins) with the bit pattern of
     float32(+-1e30), so that whatever a kernel reads beyond a freshly allocated array differs
     between the two runs of a case."""
     val = np.float32(sign * 1e30)
     keep = []
-    for rep in range(9):
-        # numpy keeps up to 7 freed blocks per byte size < 1024 in its own cache; nine per size make the
-        # surplus reach free(), where glibc notices chunk headers damaged by an earlier out-of-bounds write
-        for n in (_SPRAY_SIZES if rep < 3 else _SPRAY_SMALL):
+    for _ in range(3):
+        for n in _SPRAY_SIZES:
             keep.append(np.full(n, val, dtype=np.float32))
+    del keep
+
+
+_FLUSH_SIZES = sorted(set(range(0, 129)) | set(range(128, 513, 4)) | set(range(512, 1025, 8)))
+
+
+def flush_heap():
+    """numpy parks up to 7 freed data blocks per byte size < 1024 in a private cache, so a block whose
+    malloc header was damaged by an out-of-bounds write may not reach free() for a long time.  Taking 16
+    blocks of every small size and dropping them again (a list is emptied from its end) pushes every
+    parked block through free(), where glibc aborts on a damaged header - inside the guilty case."""
+    keep = []
+    for n in _FLUSH_SIZES:
+        for _ in range(16):
+            keep.append(np.empty(n, dtype=np.uint8))
     del keep
 
 
@@ -281,7 +291,7 @@ def child_case(case):
                 else:
                     d["exc"][v] = d["exc"].get(v, 0) + 1
     if not SAN:
-        spray(1)
+        flush_heap()
         for layout in layouts:
             bad = compare_runs(outs[(layout, 1)], outs[(layout, -1)])
             if bad:     # must reproduce
